@@ -60,6 +60,19 @@ func (t *vfRejectingText) Add(id uint32, text string) error {
 	return t.BM25SearchIndex.Add(id, text)
 }
 
+// vfRejectingMeta is a MetadataIndex that wraps the roaring index and rejects documents carrying a
+// marker key with a SUPPORTED value type: the hybrid index validates value types before it touches
+// any sub-index, so this is the only way to make the THIRD sub-index fail after the vector and the
+// text have been added (the roll-back path).
+type vfRejectingMeta struct{ *RoaringMetadataIndex }
+
+func (m *vfRejectingMeta) Add(node MetadataNode) error {
+	if _, bad := node.Metadata()[vfRejectMarker]; bad {
+		return errors.New("metadata rejected by the test stub")
+	}
+	return m.RoaringMetadataIndex.Add(node)
+}
+
 func vfBadMetaValue(kind string) interface{} {
 	// anything outside the five supported types (int, int64, float64, string, bool)
 	switch kind {
@@ -158,7 +171,7 @@ func vfC06Gen(rt *rapid.T) vfC06Case {
 			return op
 		case w < 55:
 			d := genDoc(rt)
-			fail := rapid.SampledFrom([]string{"dim", "dim", "dim", "zero", "zero", "zero", "text", "text", "meta_slice", "meta_nil", "meta_struct", "meta_int32", "meta_float32", "meta_uint", "meta_uint64", "meta_int8", "meta_strslice", "meta_map", "meta_ptr"}).Draw(rt, "fail_kind")
+			fail := rapid.SampledFrom([]string{"dim", "dim", "dim", "zero", "zero", "zero", "text", "text", "meta_stub", "meta_stub", "meta_slice", "meta_nil", "meta_struct", "meta_int32", "meta_float32", "meta_uint", "meta_uint64", "meta_int8", "meta_strslice", "meta_map", "meta_ptr"}).Draw(rt, "fail_kind")
 			if rapid.Bool().Draw(rt, "fail_explicit_id") {
 				d.ID = uint32(1<<30 + (1 << 21) + rapid.IntRange(0, 1000).Draw(rt, "fail_doc_id"))
 			}
@@ -445,7 +458,7 @@ func vfC06Hybrid(c *vfC06Case, ctx *vfCtx) *vfViolation {
 		s.ti = &vfRejectingText{NewBM25SearchIndex()}
 	}
 	if c.HasMeta {
-		s.mi = NewRoaringMetadataIndex()
+		s.mi = &vfRejectingMeta{NewRoaringMetadataIndex()}
 	}
 	s.h = NewHybridSearchIndex(s.vi, s.ti, s.mi)
 	ctx.Class("vec_kind=" + c.VecKind)
@@ -509,7 +522,11 @@ func vfC06Hybrid(c *vfC06Case, ctx *vfCtx) *vfViolation {
 						if meta == nil {
 							meta = map[string]interface{}{}
 						}
-						meta["bad"] = vfBadMetaValue(op.Fail)
+						if op.Fail == "meta_stub" {
+							meta[vfRejectMarker] = 1
+						} else {
+							meta["bad"] = vfBadMetaValue(op.Fail)
+						}
 						meta["s1"] = "a"
 						meta["i1"] = 7
 						expectFail = true
@@ -652,6 +669,7 @@ func vfFirstDiff(a, b string) string {
 // ---- per-index clause ----------------------------------------------------------------
 
 func vfC06Direct(c *vfC06Case, ctx *vfCtx) *vfViolation {
+	var directCase *vfC02Case
 	var ut *vfIndexUT
 	var bm *BM25SearchIndex
 	var mi *RoaringMetadataIndex
@@ -676,6 +694,7 @@ func vfC06Direct(c *vfC06Case, ctx *vfCtx) *vfViolation {
 		if ut, err = vfBuildIndex(&cc); err != nil {
 			return vfFail("direct: building a %s index: %v", c.Direct, err)
 		}
+		directCase = &cc
 	}
 	ctx.Class("direct_kind=" + c.Direct)
 	live := map[uint32]int{}  // id -> content
@@ -702,12 +721,51 @@ func vfC06Direct(c *vfC06Case, ctx *vfCtx) *vfViolation {
 			if err != nil {
 				return vfFail("direct %s op %d: Add(%d): %v", c.Direct, i, op.ID, err)
 			}
-			if gone[op.ID] {
+			wasGone := gone[op.ID]
+			if wasGone {
 				readd = true
 				ctx.Class("direct_re_add")
 			}
 			delete(gone, op.ID)
 			live[op.ID] = op.Content
+			if wasGone && (c.Direct == "pq" || c.Direct == "ivfpq") {
+				// the quantising kinds score against what they STORED (codes): "only the new content" is
+				// decided against a fresh index of the same training that holds exactly the live documents
+				// (codes and cluster assignment are a deterministic function of codebooks and vector)
+				fresh, err := vfBuildIndex(directCase)
+				if err != nil {
+					return vfFail("direct: building the reference %s index: %v", c.Direct, err)
+				}
+				for _, id := range vfKeys(live) {
+					if err := fresh.idx.Add(*NewVectorNodeWithID(id, vfCloneF32(c.Contents[live[id]]))); err != nil {
+						return vfFail("direct: reference Add: %v", err)
+					}
+				}
+				for ci := range c.Contents {
+					a, err1 := ut.idx.NewSearch().WithQuery(vfCloneF32(c.Contents[ci])).WithK(0).WithNProbes(0).Execute()
+					b, err2 := fresh.idx.NewSearch().WithQuery(vfCloneF32(c.Contents[ci])).WithK(0).WithNProbes(0).Execute()
+					if err1 != nil || err2 != nil {
+						return vfFail("direct %s op %d: search: %v / %v", c.Direct, i, err1, err2)
+					}
+					sa, sb := map[uint32]float32{}, map[uint32]float32{}
+					for _, r := range a {
+						sa[r.GetId()] = r.GetScore()
+					}
+					for _, r := range b {
+						sb[r.GetId()] = r.GetScore()
+					}
+					for id, x := range sb {
+						y, ok := sa[id]
+						if !ok || math.Abs(float64(x)-float64(y)) > 1e-6*(1+math.Abs(float64(x))) {
+							return vfFail("direct %s op %d: after re-adding id %d with content %d, id %d scores %v (found=%v) against query content %d; a fresh index holding the same live documents scores it %v — the old code / cluster is still in use?", c.Direct, i, op.ID, op.Content, id, y, ok, ci, x)
+						}
+					}
+					if len(sa) != len(sb) {
+						return vfFail("direct %s op %d: after a re-add the index returns %d documents, a fresh index with the same live documents %d", c.Direct, i, len(sa), len(sb))
+					}
+				}
+				ctx.Class("direct_re_add_compared_with_a_fresh_quantising_index")
+			}
 		case "add_fail":
 			if ut == nil {
 				continue // the text and metadata indexes have no failing adds of this kind
